@@ -4,8 +4,10 @@ subgraph.  For the shipped dataset the statement is decided by the kernel for ev
 roots: the builder's output (a model of `_build_decay_digraph`, queue by queue) coincides with an
 independently defined specification — set-based reachability, layered minimum distances, one
 `X_SF` node per spontaneous-fission branch, one edge per listed link — and no two nodes share a
-name or a position.  (A proof for the shipped configuration; the ∀-datasets invariants are
-future work and named `…_partial` in the evidence.)
+name or a position.  (The kernel decision for the shipped configuration; the theorems that hold for
+EVERY dataset accepted by the executable checker `reachWFb` — node set = reachable set, rows =
+minimum number of decays, distinct names and positions, edges = listed links — are in
+`Props/C16Inv.lean`, the label text in `Props/C16Labels.lean`.)
 -/
 import RdVerif.Model.Diagram
 import RdVerif.Gen.Icrp107.Obl.WdiagAll
